@@ -6,6 +6,7 @@ from __future__ import annotations
 
 import argparse
 import gc
+import zlib
 import itertools
 
 import numpy as np
@@ -43,11 +44,11 @@ def check_c08(tier, seed):
     maxlen = 3 if tier == "quick" else 4
     b = Bounded(
         "C08.bounded",
-        bound=f"all histories of length <= {maxlen} over 11 statement kinds (op on tensor / writeable user array / read-only user array / view of user array / out= array, in-place update, failing op, backward, clear_graph, drop oldest result, drop newest result) followed by dropping the remaining results in both orders",
+        bound=f"all histories of length <= {maxlen} over 13 statement kinds (op on tensor / writeable user array / read-only user array / view of user array / the view's base array / out= array / out= view of a user array, in-place update, failing op, backward, clear_graph, drop oldest result, drop newest result) followed by dropping the remaining results in both orders",
         rule="case = the statement list + final drop order; non-trivial = at least one op recorded with memory guarding on",
     )
     mg.turn_memory_guarding_on()
-    kinds = ["op-tensor", "op-array", "op-roarray", "op-view", "op-out", "inplace", "fail", "backward", "clear", "drop-old", "drop-new"]
+    kinds = ["op-tensor", "op-array", "op-roarray", "op-view", "op-viewbase", "op-out", "op-out-view", "inplace", "fail", "backward", "clear", "drop-old", "drop-new"]
 
     def run(hist, final_order):
         A = rng.uniform(1, 2, size=(4,))  # writeable user array
@@ -73,8 +74,12 @@ def check_c08(tier, seed):
                     results.append(mg.add(T, Rr))
                 elif k == "op-view":
                     results.append(mg.add(V, T))
+                elif k == "op-viewbase":
+                    results.append(mg.multiply(Bv, 2.0))
                 elif k == "op-out":
                     results.append(mg.multiply(T, 3.0, out=O))
+                elif k == "op-out-view":
+                    results.append(mg.multiply(T, 3.0, out=V))
                 elif k == "inplace":
                     T[:2] = 0.5
                 elif k == "fail":
@@ -120,7 +125,7 @@ def check_c08(tier, seed):
             del live[i]
         del live
         T.clear_graph()
-        gc.collect()
+        # no gc.collect(): everything must be released by reference counting alone
         for nm, arr in arrays.items():
             if arr.flags.writeable != orig[nm]:
                 problems.append(f"at quiescence: {nm}.flags.writeable = {arr.flags.writeable}, originally {orig[nm]}")
@@ -130,8 +135,6 @@ def check_c08(tier, seed):
     for L in range(1, maxlen + 1):
         for hist in itertools.product(kinds, repeat=L):
             if not any(k.startswith("op") for k in hist):
-                continue
-            if tier == "quick" and L == maxlen and (hash(hist) % 5):
                 continue
             for oi, fo in enumerate(orders):
                 desc = dict(history=list(hist), final_drop=("fifo", "lifo")[oi])
